@@ -20,7 +20,7 @@ var rawFuncs = map[string]struct {
 	"runecount": {"str_runecount", SInt}, "strlt": {"str_lt", SBool},
 	"typeof": {"typeof", SInt}, "kind": {"kind", SInt}, "kindof": {"kindof", SInt},
 	"pl_int": {"pl_int", SInt}, "pl_bool": {"pl_bool", SBool}, "pl_str": {"pl_str", SStr}, "pl_flt": {"pl_flt", SFlt},
-	"pl_len": {"pl_len", SInt}, "pl_elem": {"pl_elem", SVal}, "pl_ptr": {"pl_ptr", SInt},
+	"pl_len": {"pl_len", SInt}, "pl_elem": {"pl_elem", SVal}, "pl_ptr": {"pl_ptr", SInt}, "pl_deref": {"pl_deref", SVal}, "pl_mhas": {"pl_mhas", SBool}, "pl_mget": {"pl_mget", SVal}, "tassignable": {"tassignable", SBool}, "tnumin": {"tnumin", SInt}, "tvariadic": {"tvariadic", SBool}, "tin": {"tin", SInt},
 	"tcomparable": {"tcomparable", SBool}, "telem": {"telem", SInt}, "tkey": {"tkey", SInt},
 	"i2f": {"i2f", SFlt}, "f2i": {"f2i", SInt}, "fadd": {"f_add", SFlt}, "fsub": {"f_sub", SFlt}, "fmul": {"f_mul", SFlt},
 	"fdiv": {"f_div", SFlt}, "flt": {"f_lt", SBool}, "feq": {"f_eq", SBool}, "isnan": {"f_isnan", SBool},
